@@ -270,7 +270,7 @@ QUICK_N = 60000
 THOROUGH_N = 3000000
 KINDS = ["sort"] * 6 + ["repair"] * 5 + ["canon"] * 4 + ["parents"] * 2 + ["dedup", "sortind", "squash"]
 EXH_BASES = {"quick": 6, "thorough": 60}
-EXH_TABLES = ("edges", "sites", "mutations", "migrations")
+EXH_TABLES = ("edges", "sites", "mutations", "migrations", "individuals", "populations")
 
 
 def cases(tier, seed):
@@ -684,7 +684,13 @@ def run_canon(case, ctx):
     with_migs = rng.random() < 0.08
     m = base_model(rng, migrations=with_migs, tier=case["tier"])
     remove = rng.random() < 0.7
-    tabs = None if remove else {t for t in ("edges", "sites", "mutations", "migrations") if rng.random() < 0.85}
+    if remove:
+        tabs = None
+    else:
+        # unreferenced individuals / populations are documented to keep "their original order": both copies get
+        # the same individual and population order, every other table is permuted independently
+        tabs = {t for t in ("edges", "sites", "mutations", "migrations") if rng.random() < 0.85}
+        m = scramble(rng, m, tables={"individuals", "populations"})
     s1 = scramble(rng, m, free_mutations=True, tables=tabs)
     s2 = scramble(rng, m, free_mutations=True, tables=tabs)
     feat(ctx, m, f"canon:remove_unreferenced={int(remove)}", "canon:migrations" if m.migrations else "canon:no-migrations")
@@ -1022,7 +1028,7 @@ def exh_base(b, rows):
             continue
         # keep exactly `rows` edges (any sub-collection of a valid edge set is valid)
         m.edges = sorted(rng.sample(m.edges, rows), key=edge_key(m))
-        gen.decorate_pops_inds(rng, m, npop=2, nind=2)
+        gen.decorate_pops_inds(rng, m, npop=rows - 1, nind=rows)
         gen.decorate_sites(rng, m, max_sites=rows, max_muts=3, known_times=(b % 2 == 0))
         if len(m.sites) < 2 or len(m.mutations) < 2:
             continue
